@@ -274,3 +274,13 @@ func keysOf(m map[string][]byte) []string {
 	}
 	return ks
 }
+
+// ---------------------------------------------------------------- pinned-revision database fixture
+
+// FixtureKeys is what `verifh mkfixture` stores (through the public API, on the real Badger engine) and
+// what the current tree must read back from the stored directory.
+var FixtureKeys = []struct {
+	Key string
+	ID  int
+	Len int
+}{{"a", 7001, 8}, {"b", 7002, 2049}, {"ключ-ü", 7003, 1}, {"empty", 7004, 0}, {strings.Repeat("k", 300), 7005, 33000}}
